@@ -1,7 +1,9 @@
 package main
 
 import (
+	"go/constant"
 	"go/token"
+	"go/types"
 
 	"golang.org/x/tools/go/ssa"
 )
@@ -61,6 +63,15 @@ func rulesEffC13(c *Ctx, r *Report) {
 			ia, ok := st.Addr.(*ssa.IndexAddr)
 			if !ok {
 				return false, "store through something other than an element address"
+			}
+			// dst[len(dst)-1] with dst the slice as it is now (the parameter, grown by appends only): at or beyond the
+			// original length if an element has been appended on every way from the entry to this store
+			if lastOfGrown(s, ia) {
+				if ok, why := appendedOnEveryWayTo(f, st, ia.X); ok {
+					return true, ""
+				} else {
+					return false, "index is the last element of the grown slice, but " + why
+				}
 			}
 			d := linSub(linOf(s.expr(ia.Index)), linOf(&Sym{Op: "builtin:len", Args: []*Sym{{Op: "param", Leaf: "P0"}}}))
 			// every remaining atom must be provably non-negative with a positive coefficient
@@ -155,4 +166,186 @@ func rulesEffC14(c *Ctx, r *Report) {
 	if f := c.fn("sequtil", "TranslateReadingFrames"); f != nil {
 		e.rulePure(r, "PURE", f, "seq")
 	}
+}
+
+// lastOfGrown: the element address is x[len(x)-1] for one and the same slice value x.
+func lastOfGrown(s *symb, ia *ssa.IndexAddr) bool {
+	bo, ok := ia.Index.(*ssa.BinOp)
+	if !ok || bo.Op != token.SUB {
+		return false
+	}
+	if k, ok := cInt(constVal(bo.Y)); !ok || k != 1 {
+		return false
+	}
+	cl, ok := bo.X.(*ssa.Call)
+	if !ok {
+		return false
+	}
+	if b, ok := cl.Call.Value.(*ssa.Builtin); !ok || b.Name() != "len" {
+		return false
+	}
+	return cl.Call.Args[0] == ia.X
+}
+
+// appendedOnEveryWayTo: on every path from f's entry to the store st, at least one element has been appended to
+// the slice that cur continues (the parameter, merges of it and appends onto it). The first trip through the
+// innermost loop around the store is followed with the loop's variables at their initial values, so that a branch
+// such as `if i%4 == 0 { dst = append(dst, 0) }` is known to be taken when i is 0; once an element has been
+// appended it stays appended.
+func appendedOnEveryWayTo(f *ssa.Function, st *ssa.Store, cur ssa.Value) (bool, string) {
+	// the chain: values that are the parameter grown by appends
+	isAppend1 := func(v ssa.Value) (*ssa.Call, bool) {
+		cl, ok := v.(*ssa.Call)
+		if !ok {
+			return nil, false
+		}
+		b, ok := cl.Call.Value.(*ssa.Builtin)
+		if !ok || b.Name() != "append" || len(cl.Call.Args) != 2 {
+			return nil, false
+		}
+		return cl, len(orderedVarargs([]ssa.Value{cl.Call.Args[1]})) >= 1
+	}
+	appendBlocks := map[*ssa.BasicBlock][]*ssa.Call{}
+	instrs(f, func(in ssa.Instruction) {
+		if v, ok := in.(ssa.Value); ok {
+			if cl, one := isAppend1(v); cl != nil && one && types.Identical(cl.Type(), cur.Type()) {
+				appendBlocks[cl.Block()] = append(appendBlocks[cl.Block()], cl)
+			}
+		}
+	})
+	// innermost loop around the store
+	var header *ssa.BasicBlock
+	for _, b := range f.Blocks {
+		if isLoopHeader(b) && naturalLoop(b)[st.Block()] {
+			if header == nil || naturalLoop(header)[b] {
+				header = b
+			}
+		}
+	}
+	if header == nil {
+		// straight-line: an append must dominate the store
+		for _, cls := range appendBlocks {
+			for _, cl := range cls {
+				if instrDominates(cl, st) {
+					return true, ""
+				}
+			}
+		}
+		return false, "no append comes before it on every path"
+	}
+	loop := naturalLoop(header)
+	// first trip: header phis at their initial constants
+	env := map[ssa.Value]int64{}
+	for _, in := range header.Instrs {
+		phi, ok := in.(*ssa.Phi)
+		if !ok {
+			break
+		}
+		for i, p := range header.Preds {
+			if !loop[p] {
+				if k, ok := cInt(constVal(phi.Edges[i])); ok {
+					env[phi] = k
+				}
+			}
+		}
+	}
+	var eval func(v ssa.Value, depth int) (int64, bool)
+	eval = func(v ssa.Value, depth int) (int64, bool) {
+		if depth > 8 {
+			return 0, false
+		}
+		if k, ok := env[v]; ok {
+			return k, true
+		}
+		if k, ok := cInt(constVal(v)); ok {
+			return k, true
+		}
+		if c, ok := v.(*ssa.Const); ok && c.Value != nil && c.Value.Kind() == constant.Bool {
+			if constant.BoolVal(c.Value) {
+				return 1, true
+			}
+			return 0, true
+		}
+		if bo, ok := v.(*ssa.BinOp); ok {
+			l, ok1 := eval(bo.X, depth+1)
+			r, ok2 := eval(bo.Y, depth+1)
+			if ok1 && ok2 {
+				if (bo.Op == token.QUO || bo.Op == token.REM) && r == 0 {
+					return 0, false
+				}
+				res := evalBin(bo.Op, l, r, bo.X.Type(), bo.Type())
+				return res.v, res.ok
+			}
+		}
+		return 0, false
+	}
+	// walk: state = appended so far (must); first = still on the first trip through the loop
+	type key struct {
+		b     *ssa.BasicBlock
+		first bool
+	}
+	state := map[key]int{} // 0 unseen, 1 appended on all ways seen so far, 2 not appended on some way
+	bad := ""
+	var visit func(b *ssa.BasicBlock, first, appended bool, depth int)
+	visit = func(b *ssa.BasicBlock, first, appended bool, depth int) {
+		if bad != "" || depth > 400 {
+			return
+		}
+		k := key{b, first}
+		want := 1
+		if !appended {
+			want = 2
+		}
+		if state[k] >= want {
+			return // already seen in a state at least as weak
+		}
+		state[k] = want
+		for _, in := range b.Instrs {
+			if in == ssa.Instruction(st) {
+				if !appended {
+					bad = "a way to it passes no append of an element"
+				}
+				break
+			}
+			if v, ok := in.(ssa.Value); ok {
+				if cl, one := isAppend1(v); cl != nil && one && types.Identical(cl.Type(), cur.Type()) {
+					appended = true
+				}
+			}
+		}
+		succs := b.Succs
+		if iff, ok := lastInstr(b).(*ssa.If); ok && first && loop[b] {
+			if c, ok := eval(iff.Cond, 0); ok {
+				if c != 0 {
+					succs = b.Succs[:1]
+				} else {
+					succs = b.Succs[1:2]
+				}
+			}
+		}
+		for _, su := range succs {
+			nf := first
+			if su == header && loop[b] {
+				nf = false // a second trip: the loop variables have moved on
+			}
+			if !loop[su] && loop[b] {
+				continue // leaving the loop: the store is inside
+			}
+			visit(su, nf, appended, depth+1)
+		}
+	}
+	// ways into the loop: from the entry, without peeling (appended stays as the must-analysis finds it)
+	entryAppended := false
+	for _, cls := range appendBlocks {
+		for _, cl := range cls {
+			if !loop[cl.Block()] && cl.Block().Dominates(header) {
+				entryAppended = true
+			}
+		}
+	}
+	visit(header, true, entryAppended, 0)
+	if bad != "" {
+		return false, bad
+	}
+	return true, ""
 }
